@@ -38,6 +38,8 @@ class AllModel:
             if F.key not in t.keys:
                 return set()
             idx = t.keys.index(F.key)
+            if len(segs) != idx + 1:
+                return set()      # (a search below its level is not a constants Finder's: nothing of its level matches it)
             rsegs = segs[:idx + 1]
             r = "/".join(rsegs)
             parent = "/".join(rsegs[:-1])
